@@ -93,6 +93,15 @@ def handle (prop : String) (line : String) : String :=
       | "buildafterx" => opBuild prop args res
       | "classify" => opClassify args res
       | "build" => opBuild prop args res
+      | "buildhh" =>
+        -- a build reached through a HISTORY of setter calls and discarded builds on one builder: judged by its final options
+        (match args with
+         | hx :: e :: m :: v :: k :: _ => opBuild prop [hx, e, m, v, k] res
+         | _ => { spec := some "bad-args" })
+      | "classifyh" =>
+        (match args with
+         | hx :: _ => opClassify [hx] res
+         | _ => { spec := some "bad-args" })
       | "buildbig" =>
         -- `<run byte> <len> <tail byte|-> <ecl|->`: the payload is `len` copies of one byte (+ one last byte), all else automatic
         (match args with
@@ -124,6 +133,8 @@ def handle (prop : String) (line : String) : String :=
          | _ => opTerm args res)
       | "svg" => opSvg prop args res
       | "svgt" => opSvg prop args res
+      | "svgcmd" => opSvgCmd args res
+      | "refile" => opReuse args res   -- digest pairs: file written over an earlier rendering vs the in-memory rendering
       | "wasm" => opWasm args res
       | "wasmn" => { (opWasm args res) with model := none }   -- NaN / infinite options: no dyadic model
       | "hist" => opHist args res
